@@ -96,7 +96,23 @@ def tuple_sort(ts):
     return _sorts[key]
 
 
+def opt_sort(t):
+    key = ('opt', repr(t))
+    if key not in _sorts:
+        nm = 'Opt_' + re.sub(r'\W+', '_', repr(t))
+        d = z3.Datatype(nm)
+        d.declare('none_' + nm)
+        d.declare('some_' + nm, ('get_' + nm, zsort(t)))
+        d = d.create()
+        _sorts[key] = d
+    return _sorts[key]
+
+
 def zsort(t):
+    if isinstance(t, Opt):
+        return opt_sort(t.t)
+    if t is NoneT:
+        return opt_sort(Int)
     if t is Int:
         return z3.IntSort()
     if t is Bool:
@@ -114,6 +130,15 @@ def zsort(t):
 
 def to_z(v, t):
     """symbolic value -> z3 expression of sort zsort(t)"""
+    if isinstance(v, SIte):
+        return z3.If(v.c, to_z(v.a, t), to_z(v.b, t))
+    if isinstance(t, Opt):
+        d = opt_sort(t.t)
+        if isinstance(v, SNone):
+            return d.constructor(0)()
+        return d.constructor(1)(to_z(v, t.t))
+    if t is NoneT:
+        return opt_sort(Int).constructor(0)()
     if t is Int:
         assert isinstance(v, (SInt, SBool)), v
         return v.e if isinstance(v, SInt) else z3.If(v.e, 1, 0)
@@ -134,6 +159,16 @@ def to_z(v, t):
 
 
 def from_z(e, t):
+    if isinstance(t, Opt):
+        d = opt_sort(t.t)
+        es = z3.simplify(e)
+        if z3.is_app(es) and es.decl().eq(d.constructor(0)):
+            return NONE
+        if z3.is_app(es) and es.decl().eq(d.constructor(1)):
+            return from_z(es.arg(0), t.t)
+        return SIte(d.recognizer(0)(e), NONE, from_z(d.accessor(1, 0)(e), t.t))
+    if t is NoneT:
+        return NONE
     if t is Int:
         return SInt(e)
     if t is Bool:
